@@ -1522,7 +1522,9 @@ class AdapterIndex:
         # Fix this by re-doing the alignment.
         adapter = result[0]
         match = adapter.match_to(affix)
-        if match is None:
+        if match is None or match.rstop - match.rstart != len(affix):
+            # With indels, the alignment may cover only part of the affix. The
+            # reported errors and score would then not describe the affix.
             return None
         return adapter, match.errors, match.score
 
